@@ -12,7 +12,7 @@ rsync -a --exclude _build --exclude .git /repo/ "$D/"
 ( cd "$D" && patch -p1 -s < "$PATCH" ) || { echo "patch failed"; rm -rf "$D"; exit 2; }
 cd "$(dirname "$0")/.."
 for id in "$@"; do
-  VERIF_REPLAY_DIR="$D/.replay" VERIF_REPO="$D" ./check "$id" --tier ${TIER:-quick} > "$D/.out.$id" 2>&1
+  VERIF_EVIDENCE_DIR="$D/.evidence" VERIF_REPLAY_DIR="$D/.replay" VERIF_REPO="$D" ./check "$id" --tier ${TIER:-quick} > "$D/.out.$id" 2>&1
   rc=$?
   echo "$id exit=$rc $(grep -c '^VIOLATION' "$D/.out.$id") violation line(s)"
   grep -A1 '^VIOLATION' "$D/.out.$id" | head -${SHOW:-4}
